@@ -462,6 +462,11 @@ func (self Value) getByPath(pathes ...Path) (Value, []int) {
 		}
 		// after search function, p.Read will always point to the tag position except when packed list element
 		address[i] = start
+		if path.t == PathIndex && err == nil && !desc.IsPacked() {
+			// searchIndex answers the offset BEHIND the tag of an unpacked element, but updateByteLen re-patches the
+			// length of the element (a message) from the offset of its tag
+			address[i] = start - protowire.SizeVarint(uint64(desc.BaseId())<<3|uint64(desc.Elem().WireType()))
+		}
 
 		if err != nil {
 			// the last one not foud, return start pointer for subsequently inserting operation on `SetByPath()`
